@@ -283,3 +283,43 @@ Fixpoint after_h (d : disk) (h : list hstep) : disk :=
   end.
 Definition completed_steps (h : list hstep) : list (fresh * list svc) :=
   flat_map (fun s => if hs_open_fails s then [] else [(hs_fresh s, hs_cfg s)]) h.
+
+(* ---- one key / certificate per instance ----
+   every ssh service calls config.AddHostKey once (the RSA key), every TLS service puts one
+   certificate into its tls.Config: a client is offered exactly one host key algorithm /
+   certificate type (numbered 1), whatever it asks for. *)
+Definition offered_algs : list N := [1%N].
+Definition presented_algs (stored : ikind -> bytes) (is : list inst) : list (list (N * bytes)) :=
+  map (fun v => map (fun a => (a, v)) offered_algs) (presented stored is).
+
+(* ---- how the data directory is SPELLED ----
+   server/options.go WithDataDir(s): p := expand(s) (a leading ~ becomes the home
+   directory), p = filepath.Abs(p) (relative: joined to the working directory; then
+   Clean), b.dataDir = p and storage.SetDataDir(p), which opens p/badger.db; WithToken
+   uses path.Join(b.dataDir, "token") and ... "token.tmp".  Paths are lists of
+   components below the root; the splitter drops empty components and "."; ".." is
+   [Up].  Lexical, like filepath.Clean: symbolic links are not modelled. *)
+Inductive comp := Up | Name (n : N).
+Record spelling := mkSpell { sp_tilde : bool; sp_abs : bool; sp_comps : list comp }.
+
+(* Clean of root/acc/cs, [acc] reversed; ".." at the root stays at the root *)
+Fixpoint norm (acc : list N) (cs : list comp) : list N :=
+  match cs with
+  | [] => rev acc
+  | Up :: r => norm (tl acc) r
+  | Name n :: r => norm (n :: acc) r
+  end.
+
+Definition resolve (home cwd : list N) (s : spelling) : list N :=
+  if sp_tilde s then norm (rev home) (sp_comps s)
+  else if sp_abs s then norm [] (sp_comps s)
+  else norm (rev cwd) (sp_comps s).
+
+Definition TOKEN := 1000%N.
+Definition TOKEN_TMP := 1001%N.
+Definition BADGER_DB := 1002%N.
+(* where the three pieces of persisted state of a start live *)
+Definition data_dir (home cwd : list N) (s : spelling) : list N := resolve home cwd s.
+Definition store_path (home cwd : list N) (s : spelling) : list N := norm (rev (data_dir home cwd s)) [Name BADGER_DB].
+Definition token_path (home cwd : list N) (s : spelling) : list N := norm (rev (data_dir home cwd s)) [Name TOKEN].
+Definition token_tmp_path (home cwd : list N) (s : spelling) : list N := norm (rev (data_dir home cwd s)) [Name TOKEN_TMP].
